@@ -438,6 +438,30 @@ def has_strings(*docs):
     return any(go(d) for d in docs)
 
 
+def steps_into_str(pats, *docs):
+    """labelling only: does some pattern reach a non-empty str with parts left"""
+    import fnmatch
+
+    def go(parts, d):
+        if not parts:
+            return False
+        if isinstance(d, str):
+            return d != ""
+        if isinstance(d, dict):
+            return any(go(parts[1:], v) for k, v in d.items() if fnmatch.fnmatchcase(k, parts[0]))
+        if isinstance(d, list):
+            return any(go(parts[1:], v) for i, v in enumerate(d) if fnmatch.fnmatchcase(str(i), parts[0]))
+        return False
+    for p in pats:
+        p = p.strip()
+        if not p.startswith("/"):
+            continue
+        parts = [x.replace("~1", "/").replace("~0", "~") for x in p.split("/")[1:]]
+        if any(go(parts, d) for d in docs):
+            return True
+    return False
+
+
 def size(c):
     return len(json.dumps(runner_payload(c)))
 
@@ -466,11 +490,13 @@ def evaluate(ctx, cases, outs, v, tag=""):
         for j, i in enumerate(bad):
             c = cases[i]
             failed = [l for l in ("noerr", "inside", "outside", "idem") if j in rc[l]]
-            if j in rc["objects_only"]:
+            if "" in c["acl"]:
+                cls = "root-pointer"
+            elif j in rc["objects_only"]:
                 cls = "pattern-steps-into-array"
             elif has_special_keys(c["old"], c["f"]) and not v["v_esc"]:
                 cls = "key-with-slash-or-tilde"
-            elif has_strings(c["old"], c["f"]) and v["v_strseq"] and "noerr" in failed:
+            elif v["v_strseq"] and steps_into_str(c["acl"], c["old"], c["f"]):
                 cls = "pattern-steps-into-string"
             else:
                 cls = "objects-only-plain"
@@ -485,10 +511,10 @@ def evaluate(ctx, cases, outs, v, tag=""):
         raised = "exc" in outs[i]["r"]
         if has_special_keys(c["d"]) and not v["v_esc"]:
             cls = "key-with-slash-or-tilde"
+        elif v["v_strseq"] and steps_into_str(c["filters"], c["d"]):
+            cls = "pattern-steps-into-string"
         elif raised:
             cls = "raises-" + outs[i]["r"]["exc"]
-        elif has_strings(c["d"]) and v["v_strseq"]:
-            cls = "pattern-steps-into-string"
         else:
             cls = "not-a-subdocument"
         viol.append((i, f"C13/filter/{cls}",
